@@ -386,6 +386,8 @@ def closure_applications(ctx, fn, ex=None):
             if e[0] != "call":
                 continue
             for a in e[3]:
+                if a[0] == "refv":
+                    a = a[1]
                 if a[0] == "agg" and a[1] == "closure":
                     cf = table.fns.get(a[2])
                     if cf is None:
@@ -396,14 +398,15 @@ def closure_applications(ctx, fn, ex=None):
                     seen.add(sig)
                     by_ref = cf.local_ty(1).startswith("&")
                     args = [("carg", i) for i in range(1, cf.argc + 1)]
-                    pre = None
+                    # the parent's locals stay addressable (captures by reference point into them)
+                    pre = {k: v for k, v in (p.store or {}).items() if k[0] == "local" and k[1] == 0}
                     if by_ref:
-                        pre = {("local", -1, 0): a}
+                        pre[("local", -1, 0)] = a
                         args[0] = ("ref", ("local", -1, 0))
                     else:
                         args[0] = a
                     try:
-                        cps = ex.run(cf, args=args, pre_store=pre, frozen=p.store and () or ())
+                        cps = ex.run(cf, args=args, pre_store=pre, fid=1000)
                     except Exception:
                         cps = None
                     out.append((cf, p, e, cps))
